@@ -188,3 +188,78 @@ Section BatchFacts.
       + eauto.
   Qed.
 End BatchFacts.
+
+(* ------------------------------------------------------------------ FRAME_ELEMENTS constructor *)
+Section CtorElementsFacts.
+  Context {K B : Type}.
+  Variable keqb : K -> K -> bool.
+  Hypothesis keqb_spec : forall a b, keqb a b = true <-> a = b.
+  Variable outer_of : K * K -> K.
+  Variable mk_key : K -> K -> K * K.
+  Hypothesis outer_mk : forall o i, outer_of (mk_key o i) = o.
+
+  Definition row_items (o : K) (inner : list K) (row : list B) : list ((K * K) * B) :=
+    map (fun ib => (mk_key o (fst ib), snd ib)) (combine inner row).
+
+  Lemma keqb_refl a : keqb a a = true.
+  Proof. apply keqb_spec. reflexivity. Qed.
+
+  Lemma keqb_neq a b : a <> b -> keqb a b = false.
+  Proof. intros H. destruct (keqb a b) eqn:E; [apply keqb_spec in E; contradiction|reflexivity]. Qed.
+
+  (* the items of one row all carry the row's outer key: they extend the current record *)
+  Lemma records_from_row cur (acc : list B) (inner : list K) (row : list B) rest : length row = length inner ->
+    records_from keqb outer_of cur acc (row_items cur inner row ++ rest)
+    = records_from keqb outer_of cur (rev row ++ acc) rest.
+  Proof.
+    revert acc row; induction inner as [|i inner IH]; intros acc [|v row] Hl; cbn in Hl; try lia; [reflexivity|].
+    unfold row_items. cbn [combine map app records_from fst snd].
+    rewrite outer_mk, keqb_refl. fold (row_items cur inner row).
+    rewrite IH by lia. cbn [rev]. rewrite <- app_assoc. reflexivity.
+  Qed.
+
+  Lemma relabel_cons o os inner (r : list B) rs :
+    relabel mk_key (o :: os) inner (r :: rs) = row_items o inner r ++ relabel mk_key os inner rs.
+  Proof. reflexivity. Qed.
+
+  (* run segmentation recovers exactly the rows of a stream delivered in container order *)
+  Lemma records_from_stream cur (acc : list B) (os inner : list K) (rs : list (list B)) :
+    inner <> [] -> ~ In cur os -> NoDup os -> length rs = length os ->
+    Forall (fun r => length r = length inner) rs ->
+    records_from keqb outer_of cur acc (relabel mk_key os inner rs) = rev acc :: rs.
+  Proof.
+    intros Hin. revert cur acc rs; induction os as [|o os IH]; intros cur acc [|r rs] Hnot Hnd Hl Hall; cbn in Hl; try lia.
+    - reflexivity.
+    - rewrite relabel_cons. inversion Hall as [|? ? Hr Hrs]; subst. inversion Hnd as [|? ? Ho Hnd']; subst.
+      destruct inner as [|i inner]; [contradiction|]. destruct r as [|v r]; [cbn in Hr; lia|].
+      unfold row_items at 1. cbn [combine map app records_from fst snd].
+      rewrite outer_mk. rewrite keqb_neq by (intros ->; apply Hnot; left; reflexivity).
+      fold (row_items o inner r). f_equal.
+      rewrite records_from_row by (cbn in Hr; lia).
+      rewrite IH; [|exact Ho|exact Hnd'|lia|exact Hrs].
+      rewrite rev_app_distr, rev_involutive. reflexivity.
+  Qed.
+
+  Theorem ctor_elements_container_order (outer inner : list K) (recs : list (list B)) :
+    outer <> [] -> inner <> [] -> NoDup outer -> length recs = length outer ->
+    Forall (fun r => length r = length inner) recs ->
+    ctor_elements keqb outer_of mk_key outer inner (relabel mk_key outer inner recs)
+    = Ok (relabel mk_key outer inner recs).
+  Proof.
+    intros Ho Hi Hnd Hl Hall. unfold ctor_elements.
+    destruct outer as [|o os]; [contradiction|]. destruct recs as [|r rs]; [cbn in Hl; lia|].
+    inversion Hall as [|? ? Hr Hrs]; subst. inversion Hnd as [|? ? Hnot Hnd']; subst.
+    destruct inner as [|i inner]; [contradiction|]. destruct r as [|v r]; [cbn in Hr; lia|].
+    assert (Hrec : records keqb outer_of (relabel mk_key (o :: os) (i :: inner) ((v :: r) :: rs)) = Ok ((v :: r) :: rs)).
+    { rewrite relabel_cons. unfold row_items at 1. cbn [combine map app records fst snd].
+      rewrite outer_mk. f_equal. fold (row_items o inner r).
+      rewrite records_from_row by (cbn in Hr; lia).
+      rewrite records_from_stream; [|discriminate|exact Hnot|exact Hnd'|cbn in Hl; lia|exact Hrs].
+      rewrite rev_app_distr, rev_involutive. reflexivity. }
+    rewrite Hrec.
+    replace (Nat.eqb (length ((v :: r) :: rs)) (length (o :: os))) with true by (symmetry; apply Nat.eqb_eq; exact Hl).
+    replace (forallb (fun r0 => Nat.eqb (length r0) (length (i :: inner))) ((v :: r) :: rs)) with true; [reflexivity|].
+    symmetry. apply forallb_forall. intros x Hx. apply Nat.eqb_eq.
+    rewrite Forall_forall in Hall. apply Hall. exact Hx.
+  Qed.
+End CtorElementsFacts.
